@@ -17,6 +17,10 @@ RULE = ('Generated histories (1-5 steps) on finite MPS of random entangled state
         'sign / linear combination) incl. psi.norm, test_sanity and norm_test; compression: chi <= chi_max and overlap >= reported bound. '
         'infinite: enlarge_mps_unit_cell / roll_mps_unit_cell / spatial_inversion on random infinite MPS: all one- and two-site '
         'observables equal up to the relabelling of sites, inversion twice = identity, canonical form preserved. '
+        'segment: a segment cut (one- or two-sided) out of a random finite chain by extract_segment, transformed by apply_local_op (names, '
+        '1-3 site operators, non-unitary), apply_product_op, swap_sites, canonical_form (segment boundaries), convert_form, copy: the '
+        'unnormalised reduced density matrix of the segment (raw tensors with both outer singular-value sets, times psi.norm^2) equals the '
+        'one of the parent state vector transformed by the same dense operators. '
         'Non-trivial: >= 2 executed transformations with chi >= 2 before the first. Distinct = distinct canonical JSON spec.')
 ASSUMPTIONS = ['MPS <-> dense conversion validated by C07, site operators by C12', 'permute_sites direction as fixed by the test-suite: site i moves to perm[i]']
 TOL = 1e-9
@@ -511,7 +515,164 @@ def run_inf(spec):
     return {'nontrivial': True, 'classes': ['inf:' + d for d in set(done)]}
 
 
+# ------------------------------------------------------------------------------------------------
+# segment boundary conditions: a segment cut out of a finite chain, transformed in place; reference = the parent state vector
+# transformed by the same dense operators, compared through the (unnormalised) reduced density matrix of the segment
+
+
+# (compress_svd and gauge_total_charge raise NotImplementedError for segment boundary conditions: not part of the domain)
+SEG_STEPS = ['local_op', 'local_op', 'local_op_n', 'product_op', 'swap', 'swap', 'canonical', 'convert', 'copy']
+
+
+@st.composite
+def seg_specs(draw, tier):
+    return {'chain': draw(M.chain_specs(4, 6, max_dim=2 ** 10)), 'seed': draw(st.integers(0, 10 ** 6)), 'norm': draw(st.sampled_from([1.0, 1.0, 0.5, 2.0])),
+            'cut': [draw(st.integers(0, 2)), draw(st.integers(0, 2))],
+            'steps': draw(st.lists(st.tuples(st.sampled_from(SEG_STEPS), st.integers(0, 10 ** 5)), min_size=1, max_size=5))}
+
+
+def seg_rho(vec3):
+    """vec3: (E_left, D_inner, E_right) -> unnormalised reduced density matrix of the inner sites"""
+    return np.einsum('apb,aqb->pq', vec3, vec3.conj())
+
+
+def check_seg(seg, ref3, tags, canonical=True):
+    seg.test_sanity()
+    th = M.mps_to_dense(seg)  # (vL, p_0 .. p_{n-1}, vR), includes seg.norm
+    th = th.reshape(th.shape[0], -1, th.shape[-1])
+    got = seg_rho(th)
+    exp = seg_rho(ref3)
+    err = np.linalg.norm(got - exp)
+    require(err <= 10 * TOL * max(1., np.linalg.norm(exp)), 'segment-state-mismatch', '|rho_segment - rho_ref| = %r (traces %r vs %r, psi.norm = %r)' % (
+        err, np.trace(got).real, np.trace(exp).real, seg.norm), **tags)
+    if canonical:
+        nt = seg.norm_test()
+        require(np.max(np.abs(nt)) < 1e-8, 'norm_test', 'segment: max %r' % float(np.max(np.abs(nt))), **tags)
+
+
+def run_seg(spec):
+    from tenpy.networks.mps import MPS
+    from tenpy.linalg import np_conserved as npc
+    with warnings.catch_warnings():
+        warnings.simplefilter('ignore')
+        psites = M.build_sites(spec['chain'])
+        Lp = len(psites)
+        first = min(spec['cut'][0], Lp - 2)
+        last = max(first + 1, Lp - 1 - spec['cut'][1])
+        if first == 0 and last == Lp - 1:
+            first = 1
+        vec, q = M.random_state(psites, spec['seed'])
+        parent = MPS.from_full(psites, M.to_npc_state(psites, vec, q), form='B')
+        seg = parent.extract_segment(first, last)
+        require(seg.bc == 'segment' and seg.L == last - first + 1, 'extract_segment', 'bc %r L %r' % (seg.bc, seg.L), step='extract')
+        seg.norm = spec['norm']
+        sites = list(seg.sites)
+        n = len(sites)
+        pdims = [s_.dim for s_ in psites]
+        EL, ER = int(np.prod(pdims[:first])), int(np.prod(pdims[last + 1:]))
+        dims = [s_.dim for s_ in sites]
+        D = int(np.prod(dims))
+        ref = (vec * spec['norm']).reshape(EL, D, ER)
+        check_seg(seg, ref, dict(step='extract'))
+        fermionic = any(M.SITE_CFGS[c][0] in M.FERMIONIC for c in spec['chain']['cfg'])
+        done = []
+
+        def apply(Dop):
+            return np.einsum('pq,aqb->apb', Dop, ref)
+        for kind, arg in spec['steps']:
+            rng = np.random.default_rng(arg)
+            sites = list(seg.sites)
+            dims = [s_.dim for s_ in sites]
+            tags = dict(step='seg-' + kind)
+            if kind == 'local_op':
+                i = int(rng.integers(0, n))
+                names = sorted(nm for nm in sites[i].opnames if not sites[i].op_needs_JW(nm) and not nm.startswith('JW'))
+                name = names[int(rng.integers(0, len(names)))]
+                new = apply(M.dense_op(sites, {i: M.op_matrix(sites[i], name)}))
+                if np.linalg.norm(new) < 1e-6 * np.linalg.norm(ref):
+                    continue
+                unitary = [None, None, False][int(rng.integers(0, 3))]
+                seg.apply_local_op(i, name, unitary=unitary)
+                ref = new
+                tags.update(unitary=str(unitary))
+                check_seg(seg, ref, tags)
+            elif kind == 'local_op_n':
+                m = int(rng.integers(1, min(3, n) + 1))
+                i = int(rng.integers(0, n - m + 1))
+                op, idn, mats = None, None, []
+                for k in range(m):
+                    s_ = sites[i + k]
+                    cand = sorted(nm for nm in s_.opnames if not s_.op_needs_JW(nm) and not nm.startswith('JW') and not np.any(s_.get_op(nm).qtotal))
+                    nm = cand[int(rng.integers(0, len(cand)))]
+                    o = s_.get_op(nm).replace_labels(['p', 'p*'], ['p%d' % k, 'p%d*' % k])
+                    e = s_.Id.replace_labels(['p', 'p*'], ['p%d' % k, 'p%d*' % k])
+                    mats.append(M.op_matrix(s_, nm))
+                    op = o if op is None else npc.outer(op, o)
+                    idn = e if idn is None else npc.outer(idn, e)
+                if m == 1:
+                    op = op.replace_labels(['p0', 'p0*'], ['p', 'p*'])
+                    idn = idn.replace_labels(['p0', 'p0*'], ['p', 'p*'])
+                op = op + 0.5 * idn
+                new = apply(M.dense_op(sites, {i + k: mats[k] for k in range(m)}) + 0.5 * np.eye(int(np.prod(dims))))
+                if np.linalg.norm(new) < 1e-6 * np.linalg.norm(ref):
+                    continue
+                seg.apply_local_op(i, op, unitary=[None, False][int(rng.integers(0, 2))])
+                ref = new
+                tags.update(n=m)
+                check_seg(seg, ref, tags)
+            elif kind == 'product_op':
+                names, mats = [], {}
+                for k, s_ in enumerate(sites):
+                    cand = sorted(nm for nm in s_.opnames if not s_.op_needs_JW(nm) and not nm.startswith('JW'))
+                    nm = cand[int(rng.integers(0, len(cand)))] if rng.integers(0, 2) else 'Id'
+                    names.append(nm)
+                    mats[k] = M.op_matrix(s_, nm)
+                new = apply(M.dense_op(sites, mats))
+                if np.linalg.norm(new) < 1e-6 * np.linalg.norm(ref):
+                    continue
+                seg.apply_product_op(names, unitary=[None, False][int(rng.integers(0, 2))])
+                ref = new
+                check_seg(seg, ref, tags)
+            elif kind == 'swap':
+                i = int(rng.integers(0, n - 1))
+                nL, nR = jw_exponents(sites[i]), jw_exponents(sites[i + 1])
+                sign = (-1.0) ** np.outer(nL, nR)
+                sh = [1] * n
+                sh[i], sh[i + 1] = dims[i], dims[i + 1]
+                t = ref.reshape([EL] + dims + [ER]) * sign.reshape([1] + sh + [1])
+                ref = np.swapaxes(t, 1 + i, 2 + i).reshape(EL, D, ER)
+                seg.swap_sites(i, 'auto')
+                tags.update(fermionic=fermionic)
+                check_seg(seg, ref, tags)
+            elif kind == 'canonical':
+                seg.canonical_form(renormalize=False)
+                check_seg(seg, ref, tags)
+            elif kind == 'convert':
+                r2 = np.random.default_rng(arg)
+                seg.convert_form([['A', 'B', 'C', 'G', 'Th'][int(k)] for k in r2.integers(0, 5, size=n)])
+                check_seg(seg, ref, tags, canonical=False)
+            elif kind == 'compress':
+                seg.compress_svd({'chi_max': 4096, 'svd_min': 1e-14})
+                check_seg(seg, ref, tags)
+            elif kind == 'copy':
+                other = seg.copy()
+                other.apply_local_op(0, 'Id', unitary=False)
+                other.canonical_form()
+                check_seg(seg, ref, tags)
+                seg = other if arg % 2 else seg
+                if arg % 2:
+                    # the canonicalised copy was renormalised (documented default renormalize=True keeps psi.norm)
+                    check_seg(seg, ref, tags)
+            elif kind == 'gauge':
+                seg.gauge_total_charge()
+                check_seg(seg, ref, tags)
+            done.append(kind)
+    return {'nontrivial': len(done) >= 1 and max(seg.chi) >= 2, 'classes': ['seg:' + d for d in set(done)] + (['fermionic'] if fermionic else []) +
+            ['cut:%s' % ('both' if first > 0 and last < Lp - 1 else 'one-sided')]}
+
+
 SUBCHECKS = [
+    Sub('segment', seg_specs, run_seg, quick=500, thorough=20000),
     Sub('histories', hist_specs, run_hist, quick=1200, thorough=60000),
     Sub('infinite', inf_specs, run_inf, quick=250, thorough=10000),
 ]
